@@ -227,6 +227,20 @@ fn finish_interp(desc: &RunDesc, max_rounds: u64) -> ! {
     let s = sim();
     let sh = shadow();
     sh.check_quiescence(max_rounds);
+    if desc.cfg.quarantine && !sh.ebr.bag_lost_to_panic && sh.ebr.clock_moved_since_janitor_start() >= 10 {
+        // C18 "removed entries are unlinked and freed exactly once" / C20 "without leaking":
+        // the records of participants that were finalized before the final rounds began. The
+        // clock has moved ten times since, so ten complete scans of the registry were made (a scan
+        // unlinks every removed entry it meets and defers its release) and everything deferred
+        // during the first ones has expired and been collected by the later ones.
+        let unfreed = sh.ebr.unfreed_records();
+        if !unfreed.is_empty() {
+            let tls = unfreed.iter().filter(|a| sh.ebr.tls_locals.contains(a)).count();
+            let det = format!("{} participant record(s) finalized before the final collection rounds were never freed ({} of them temporary registrations made from thread-local destructors), although the clock advanced {} times during those rounds", unfreed.len(), tls, sh.ebr.clock_moved_since_janitor_start());
+            sh.soft(if tls > 0 { "C20,C18" } else { "C18,C20" }, "participant-record-never-freed", det);
+        }
+        sim().probe("participant_records_checked");
+    }
     if desc.cfg.quarantine {
         if let Some(a) = alloc::verify_poison() {
             let det = format!("freed memory at {:#x} was written after it was freed", a);
